@@ -40,7 +40,10 @@ sys.path.insert(0, VERIF)
 OUT = os.path.join(VERIF, 'mutation')
 REPO = '/repo'
 PKG = os.path.join(REPO, 'src', 'socketio')
-PROPS = ['C%02d' % i for i in range(1, 21)]
+# C14 (twin agreement) reports every one-sided edit of a twinned function, so
+# it would "kill" every single-site mutant of those files without saying
+# anything about the behavioural rules: it is left out of the campaign
+PROPS = ['C%02d' % i for i in range(1, 21) if i != 14]
 SKIP_FILES = {'asgi.py', 'middleware.py', 'tornado.py', 'zmq_manager.py',
               'kafka_manager.py', 'kombu_manager.py', 'redis_manager.py',
               'async_redis_manager.py', 'async_aiopika_manager.py',
